@@ -261,11 +261,18 @@ def generator_rules(cfg, R):
     # G4 collision detection
     R.rule('G4', '_detect_hash_collisions is on the path of transform() and raises when two zone names share an id (interpreted on a colliding pair)', floor=2)
     tf = tr.fn('Transformer.transform')
-    called = [e for s in walk_stmts(tf.body) for ex_ in _stmt_exprs(s) for e in walk_expr(ex_)
-              if e.k == 'call' and e.a[0] == 'Transformer._detect_hash_collisions']
+    # on the path of transform(): the whole compiler (extractor, transformer) is interpreted on a source with a colliding pair
+    from . import pipeline
     R.instance('G4', 'tzdb.transformer.Transformer.transform', tf.loc)
-    if not called:
-        R.violation('G4', 'tzdb.transformer.Transformer.transform', tf.loc, 'transform() does not call _detect_hash_collisions')
+    for scope_ in ('extended', 'basic'):
+        text_ = ''.join('Zone\t%s\t1:00\t-\tTST\n' % z_ for z_ in ('Tag/bA', 'Tag/mid', 'Tag/ab'))
+        try:
+            db_, _raw = pipeline.compile_text(cfg, text_, scope_)
+        except pipeline.Raised:
+            continue
+        R.violation('G4', 'tzdb.transformer.Transformer.transform', tf.loc, '%s scope: a source whose zones Tag/bA and Tag/ab share the id 0x%08x compiles without an exception '
+                    '(zones emitted: %s)' % (scope_, djb2('Tag/ab'), sorted(db_['zones_map'])))
+        break
     e1 = [era('-', 10000, 'TST', 'raw')]
     tvals = dict(zones_map={}, rules_map={}, links_map={}, scope='extended', start_year=2000, until_year=2050, until_at_granularity=60, offset_granularity=60, strict=True)
 
